@@ -116,7 +116,7 @@ def check(an, rep, tier):
                     'abs' if isinstance(inner, _ast.Call) else None)
             okm = outer in ('max', 'amax') and iname in ('abs', 'absolute')
     rep.add('P-maxmod', 'core.core_stab', 'scaling reference = max(abs(G))',
-            'ok' if okm else 'violation',
+            'ok' if okm else ('violation' if ref is not None else 'unknown'),
             '' if okm else 'the scaling reference must be the largest modulus '
             'of the core (maximum of the absolute values); anything else '
             'under-scales cores whose dominant entry is negative',
